@@ -211,6 +211,7 @@ func runC06(a *A) {
 	a.Rule("ownmap/singleton-state", 3, func() { a.ruleSingletonState() })
 	a.Rule("flow/cache-stores-success-only", 4, func() { a.ruleCacheStoresSuccessOnly() })
 	a.Rule("shape/whole-call-slice", 1, func() { a.ruleWholeCallSlice("stream") })
+	a.Rule("fnsafe/slice-bound-overflow", 1, func() { a.ruleSliceBoundOverflow("functions") })
 	a.Rule("whomay/registry", 2, func() {
 		R := a.Named("functions", "FunctionRegistry")
 		fm := a.FieldOf(R, "functions")
@@ -642,4 +643,98 @@ func calleeName(c *ssa.Call) string {
 		return fname(f)
 	}
 	return c.Call.Value.Name()
+}
+
+// ruleSliceBoundOverflow: a slice bound computed as x + y from two run-time integers (a start and a
+// length taken from the arguments) must be formed only after one addend was compared with the room
+// left (y < len - x): clamping the sum afterwards does not help, because the sum wraps around for a
+// huge addend, passes the clamp as a negative number and panics as a slice bound.
+func (a *A) ruleSliceBoundOverflow(pkgs ...string) int {
+	inPkgs := map[*ssa.Package]bool{}
+	for _, p := range pkgs {
+		inPkgs[a.Pkg(p)] = true
+	}
+	n := 0
+	for _, fn := range a.ModFuncs {
+		if fn.Pkg == nil || !inPkgs[fn.Pkg] {
+			continue
+		}
+		allInstrs(fn, func(in ssa.Instruction) {
+			sl, ok := in.(*ssa.Slice)
+			if !ok {
+				return
+			}
+			for _, bound := range []ssa.Value{sl.Low, sl.High} {
+				if bound == nil {
+					continue
+				}
+				for _, l := range phiLeaves(bound) {
+					add, ok := l.(*ssa.BinOp)
+					if !ok || add.Op != token.ADD || !isIntType(add.Type()) {
+						continue
+					}
+					if _, isK := add.X.(*ssa.Const); isK {
+						continue
+					}
+					if _, isK := add.Y.(*ssa.Const); isK {
+						continue
+					}
+					// both addends 64-bit run-time values (len()+… of ints cannot overflow in practice)
+					if bt, ok := add.Type().Underlying().(*types.Basic); !ok || bt.Kind() != types.Int64 {
+						continue
+					}
+					n++
+					guarded := false
+					// len(x) + y with y known negative cannot wrap (a negative offset counted from the end)
+					isLen := func(v ssa.Value) bool {
+						if cv, ok := v.(*ssa.Convert); ok {
+							v = cv.X
+						}
+						c, ok := v.(*ssa.Call)
+						if !ok {
+							return false
+						}
+						_, ok = isBuiltinCall(c, "len")
+						return ok
+					}
+					for _, pair := range [][2]ssa.Value{{add.X, add.Y}, {add.Y, add.X}} {
+						if !isLen(pair[0]) {
+							continue
+						}
+						other := pair[1]
+						if guardedByValue(add.Block(), func(v ssa.Value) bool {
+							c, ok := v.(*ssa.BinOp)
+							return ok && c.Op == token.LSS && c.X == other && isZeroConst(c.Y)
+						}, true) {
+							guarded = true
+						}
+					}
+					for _, g := range guardsOf(add.Block()) {
+						c, ok := g.Cond.(*ssa.BinOp)
+						if !ok {
+							continue
+						}
+						switch c.Op {
+						case token.LSS, token.LEQ, token.GTR, token.GEQ:
+						default:
+							continue
+						}
+						for _, pair := range [][2]ssa.Value{{c.X, c.Y}, {c.Y, c.X}} {
+							sub, ok := pair[1].(*ssa.BinOp)
+							if !ok || sub.Op != token.SUB {
+								continue
+							}
+							if (pair[0] == add.X && sub.Y == add.Y) || (pair[0] == add.Y && sub.Y == add.X) {
+								guarded = true
+							}
+						}
+					}
+					a.Check(guarded, fname(fn)+"#slice-bound-sum", add.Pos(),
+						"the sum used as a slice bound is formed only after one addend was compared with the room left",
+						"the slice bound "+TermOf(add, nil).String()+" adds two run-time 64-bit integers without first comparing one of them with the room left: for a huge addend the sum wraps around, passes a later clamp as a negative number and the slice expression panics")
+				}
+			}
+		})
+	}
+	return n
 }
